@@ -261,6 +261,37 @@ def _rule_level(fi):
 _CONSULT = ("comment",)
 
 
+def _region_wide_consult(fi, comment_preds):
+    """Does fi look for a comment over a whole token sequence (not at fixed offsets from an anchor)?
+    token_type_exists(<comment>) / does_token_type_exist_in_list_of_tokens(<comment>, ..) / a loop over tokens whose body
+    tests the loop element for a comment."""
+    for n in walk_function(fi.node):
+        if isinstance(n, ast.Call):
+            cn = _callee_name(n)
+            if cn in ("token_type_exists", "does_token_type_exist_in_list_of_tokens", "count_token_types_in_list_of_tokens") and any(_mentions(a, ("comment",)) for a in n.args):
+                return True
+        if isinstance(n, ast.For):
+            tg = n.target
+            elems = set()
+            if isinstance(tg, ast.Name):
+                elems.add(tg.id)
+                for x in ast.walk(n):
+                    if isinstance(x, ast.Subscript) and isinstance(x.slice, ast.Name) and x.slice.id == tg.id:
+                        elems.add(norm(x))
+            elif isinstance(tg, ast.Tuple) and len(tg.elts) == 2:
+                elems.add(norm(tg.elts[1]))
+                if isinstance(n.iter, ast.Call) and n.iter.args:
+                    elems.add("%s[%s]" % (norm(n.iter.args[0]), norm(tg.elts[0])))
+            for x in ast.walk(n):
+                if isinstance(x, ast.Call):
+                    cn = _callee_name(x)
+                    if cn == "isinstance" and len(x.args) == 2 and norm(x.args[0]) in elems and _mentions(x.args[1], ("comment",)):
+                        return True
+                    if cn in comment_preds and x.args and norm(x.args[-1] if len(x.args) == 1 else x.args[0]) in elems:
+                        return True
+    return False
+
+
 def _consults(p, keys, not_a_guard=()):
     """rule-level functions among `keys` that mention a comment class / predicate (calling a comment-dropping primitive is not looking for comments)."""
     out = []
@@ -593,8 +624,21 @@ def run(ctx):
         n_join += 1
         kk = "%s|%s|%s" % tuple((x or "-").split(":")[-1] for x in fam)
         cons = fam_consult(fam)
-        if cons:
-            r.ok("C02.join", kk, "drops line breaks via %s; consults comments in %s" % (sorted({_callee_name(n) for _, n in js})[0], ", ".join(c.split(":")[-1] for c in cons[:3])))
+        fr_all = fr | ar
+        wide = sorted(k for k in fr_all if _rule_level(p.functions[k]) and _region_wide_consult(p.functions[k], sh.pred["comment"]))
+        conf_only = [c for c in cons if c.startswith("configured on comment classes")]
+        if cons and (wide or conf_only or any(fk in DOCUMENTED_REMOVERS for fk, _ in [(f_.key, 0) for f_, _n in js])):
+            r.ok("C02.join", kk, "drops line breaks via %s; looks for comments over the whole region in %s" % (sorted({_callee_name(n) for _, n in js})[0], ", ".join(c.split(":")[-1] for c in (wide or cons)[:3])))
+        elif cons and r.tabled("C02.join", kk):
+            r.ok("C02.join", kk, "tabled", sample=False)
+        elif cons:
+            fi, n = js[0]
+            r.fail(
+                "C02.join",
+                kk + ":fixed-offset-guard",
+                "the fix of %s removes carriage returns (%s in %s); the family mentions comments (%s) but only at fixed offsets from an anchor token - nothing scans the region whose line breaks are removed, so a comment anywhere else in it (e.g. on a line of its own) swallows the code that follows" % (fam_label(fam), _callee_name(n), fi.key, ", ".join(c.split(":")[-1] for c in cons[:3])),
+                fi.loc(n),
+            )
         elif r.tabled("C02.join", kk):
             r.ok("C02.join", kk, "tabled", sample=False)
         else:
@@ -775,6 +819,10 @@ VARIANTS = [
             [(_R + "comment/rule_100.py", "        sNewToken = sToken[0 : dAction[\"index\"]] + \" \" + sToken[dAction[\"index\"] :]\n        lTokens[0].set_value(sNewToken)", "        lTokens[0].set_value(sToken.replace(sToken[0 : dAction[\"index\"]], sToken[0 : dAction[\"index\"]] + \" \"))")], rule="C02.rewrite"),
     Variant("C02", "tab replacement in comments also collapses text", "fire",
             [(_R + "whitespace/rule_002.py", "    sValue = sValue.replace(\"\\t\", \"  \")\n    lTokens.append(parser.comment(sValue))", "    sValue = sValue.replace(\"\\t\", \"  \").replace(\"--\", \"-- \")\n    lTokens.append(parser.comment(sValue))")], rule="C02.rewrite"),
+    Variant("C02", "remove_new_line guard looks only right behind the anchor token", "fire",
+            [(_R + "check.py", "        if comment_between(lTokens, iToken, utils.find_next_non_whitespace_token(iToken + 1, lTokens)):\n            return\n", "        if rules_utils.token_is_comment(lTokens[iToken + 1]):\n            return\n"),
+             (_R + "check.py", "        if comment_between(lTokens, utils.find_previous_non_whitespace_token(iToken - 1, lTokens), iToken):\n            return\n", "        if rules_utils.token_is_comment(lTokens[iToken - 1]):\n            return\n"),
+             (_R + "check.py", "def comment_between(lTokens, iStart, iEnd):\n    for oToken in lTokens[iStart:iEnd]:\n        if isinstance(oToken, parser.comment):\n            return True\n    return False\n", "")], rule="C02.join", key="fixed-offset-guard"),
     Variant("C02", "twin: guard written with the utils predicate", "silent",
             [(_R + "remove_carriage_return_after_token.py", "                    if isinstance(oToken, parser.comment):\n                        break\n", "                    if rules_utils.token_is_comment(oToken):\n                        break\n")]),
     Variant("C02", "twin: fix drops only whitespace from the rebuilt list", "silent",
